@@ -22,7 +22,7 @@ STATE: dict = {}
 
 def _reset(plan: list) -> None:
     STATE.clear()
-    STATE.update({"plan": [dict(p) for p in plan], "attempts": [], "dirs": [], "deleted": [], "injected": [], "avail": []})
+    STATE.update({"plan": [dict(p) for p in plan], "attempts": [], "dirs": [], "deleted": [], "injected": [], "avail": [], "events": [], "ports_done": {}})
 
 
 def _lookup(step: str, tag: str, phase: str):
@@ -50,6 +50,8 @@ def _lose(plan_entry: dict, job) -> None:
             if d and os.path.isdir(d):
                 shutil.rmtree(d, ignore_errors=True)
                 STATE["deleted"].append((name, d))
+        STATE["events"].append(["lose", name])
+        STATE["ports_done"].pop(name, None)
 
 
 def _inject(step_name: str, job, phase: str) -> bool:
@@ -88,13 +90,17 @@ def _classes():
                 await context.database.update_execution(
                     await context.database.add_execution(self.step.persistent_id, job_token.persistent_id, self.command),
                     {"status": cmd_out.status})
+                STATE["events"].append(["fail", job.name])
                 return cmd_out
-            return await super().execute(job)
+            out = await super().execute(job)
+            STATE["events"].append(["exec" if out.status == Status.COMPLETED else "fail", job.name])
+            return out
 
     class SfvScheduleStep(InjectorFailureScheduleStep):
         async def _set_job_directories(self, connector, locations, job):
             step_name = self.job_prefix
             if _inject(step_name, job, "schedule"):
+                STATE["events"].append(["fail", job.name])
                 raise WorkflowExecutionException(f"Injected error into {self.name} step")
             await ScheduleStep._set_job_directories(self, connector, locations, job)
             STATE["dirs"].append((job.name, [job.input_directory, job.output_directory, job.tmp_directory]))
@@ -108,11 +114,18 @@ def _classes():
     class SfvTransferStep(InjectorFailureTransferStep):
         async def transfer(self, job, token):
             step_name = self.name.split("/__transfer__/")[0]
-            if not getattr(job, "_sfv_transfer_seen", None) == id(token):
-                pass
-            if _inject(step_name, job, "transfer"):
+            top = any(token is t for t in job.inputs.values())
+            if top and _inject(step_name, job, "transfer"):
+                STATE["events"].append(["fail", job.name])
                 raise WorkflowExecutionException(f"Injected error into {self.name} step")
-            return await super().transfer(job, token)
+            out = await super().transfer(job, token)
+            if top:
+                done = STATE["ports_done"].setdefault(job.name, set())
+                done.add(self.name)
+                if len(done) >= len(job.inputs):
+                    STATE["events"].append(["stage", job.name])
+                    STATE["ports_done"][job.name] = set()
+            return out
 
     class SfvTranslator(RecoveryTranslator):
         def get_execute_pipeline(self, command, deployment_names, input_ports, outputs, step_name, workflow,
@@ -324,6 +337,7 @@ async def _run(case: dict) -> dict:
     res["dirs"] = STATE["dirs"]
     res["deleted"] = STATE["deleted"]
     res["avail"] = STATE["avail"]
+    res["events"] = STATE["events"]
     res["plan_left"] = [p for p in STATE["plan"] if p.get("count", 1) > 0]
     return res
 
